@@ -200,6 +200,11 @@ pub fn incr_main(job: &Value) -> i32 {
                 "delete" => {
                     let _ = std::fs::remove_file(path_of(&root, &op["path"]));
                 }
+                "touch" => {
+                    if let Some(m) = op["mtime"].as_i64() {
+                        set_mtime(&path_of(&root, &op["path"]), 1_600_000_000 + m);
+                    }
+                }
                 "symlink" => {
                     let pth = path_of(&root, &op["path"]);
                     if let Some(parent) = pth.parent() {
